@@ -652,6 +652,11 @@ func (c *Client) handleAgentCallback(event Event) { //nolint:cyclop
 	// Doing re-transmission.
 	transaction.attempt++
 	buff := bufferPool.Get().(*buffer) //nolint:forcetypeassert
+	if cap(buff.buf) < len(transaction.raw) {
+		// The pooled scratch buffer is 2048 bytes: grow it instead of
+		// re-transmitting a truncated request.
+		buff.buf = make([]byte, len(transaction.raw))
+	}
 	buff.buf = buff.buf[:copy(buff.buf[:cap(buff.buf)], transaction.raw)]
 	defer bufferPool.Put(buff)
 	var (
